@@ -50,6 +50,16 @@ theorem three_agree (s l t : Int) :
 theorem admits_iff_routes (w : Shard) (t : Int) : admits w t ↔ routes w t := by
   rw [admits_iff, routes_iff]
 
+/-- the window an operator configures reaches the admission check unchanged, and configuration refuses exactly `limit < start`
+(so `start = limit` — an empty window — is accepted by the server although the shard client refuses it: an observation, not
+part of the property) -/
+theorem configured_window : Gen.configuredWindowVerbatim = true ∧
+    ∀ s l : Option Int, Gen.validateLogConfigWindowRefused s l = true ↔ ∃ a b, s = some a ∧ l = some b ∧ b < a := by
+  refine ⟨rfl, ?_⟩
+  intro s l
+  unfold Gen.validateLogConfigWindowRefused
+  cases s <;> cases l <;> simp
+
 example : admits (some 5, some 9) 5 ∧ ¬ admits (some 5, some 9) 9 ∧ admits (none, some 9) (-7) ∧ admits (some 5, none) 1000 := by
   simp [admits, Gen.validateChainRejectStart, Gen.validateChainRejectLimit]
 
